@@ -215,7 +215,7 @@ def _classify(e: ast.AST, stmts: list, depth: int = 0) -> str:
 
 def rule_r2(ctx) -> RuleResult:
     rr = RuleResult("C13.R2", "every exit of the template branch is an expansion, an error element or a whole re-emission", min_instances=9)
-    fnr = ctx.fn(X.RECURSE)
+    fnr = X.expand_shared_arms(ctx.fn(X.RECURSE), ctx)
     lp = X.main_loop(fnr)
     _CLOSURES.clear()
     _CLOSURES.update({n.name: n for n in fnr.body if isinstance(n, ast.FunctionDef)})
